@@ -2,3 +2,4 @@
 import DynetxProofs.Lemmas.Timeline
 import DynetxProofs.Lemmas.Fields
 import DynetxProofs.Lemmas.Step
+import DynetxProofs.Lemmas.WF
